@@ -20,18 +20,18 @@ def h(*parts) -> str:
 def frames():
     import pandas
 
-    d1 = pandas.DataFrame({"a b": [3.0, 1.0, 4.0, 1.0, 5.0], "x": [1.0, 2.0, 4.0, 9.0, 3.0], "w": [2.0, 1.0, 0.5, 3.0, float("nan")],
+    d1 = pandas.DataFrame({"a-b": [9.0, 2.0, 6.0, 5.0, 3.0], "a b": [3.0, 1.0, 4.0, 1.0, 5.0], "x": [1.0, 2.0, 4.0, 9.0, 3.0], "w": [2.0, 1.0, 0.5, 3.0, float("nan")],
                            "A": pandas.Series(["p", "q", "r", "p", "q"], dtype=object), "B": pandas.Series(["u", "v", "u", "v", "u"], dtype=object),
                            "D": pandas.Series(["h", "h", "g", "g", "i"], dtype=object), "E": pandas.Series(["m", "n", "n", "m", "m"], dtype=object)})
-    d2 = pandas.DataFrame({"a b": [2.0, 7.0, 1.0, 8.0], "x": [10.0, -2.0, 0.0, 5.0], "w": [1.0, 1.5, 2.5, 0.25],
+    d2 = pandas.DataFrame({"a-b": [1.0, 4.0, 1.0, 4.0], "a b": [2.0, 7.0, 1.0, 8.0], "x": [10.0, -2.0, 0.0, 5.0], "w": [1.0, 1.5, 2.5, 0.25],
                            "A": pandas.Series(["r", "q", "q", "p"], dtype=object), "B": pandas.Series(["v", "v", "u", "u"], dtype=object),
                            "D": pandas.Series(["g", "h", "i", "h"], dtype=object), "E": pandas.Series(["n", "m", "n", "m"], dtype=object)})
     return d1, d2
 
 
 # K, LV and SC are objects of the caller's context: a list of knots, a list of levels and an array (they must never be written to)
-FORMULA = "scale(x) + A + B + A:B + poly(w, 2) + C(B, contr.sum):x + A:D:E + B:D:E:A + bs(w, knots=K, extrapolation='clip') + C(D, levels=LV) + I(x * SC[0]) + center(`a b`) + scale(`a b`) + lag(ZZ[:len(x)])"
-UFORMULA = "center(x) + B + A + bs(w, df=3) + D:B:E + E:D:A:B + cr(x, knots=K, extrapolation='clip') + C(E, contr.treatment(base=LV2[1]), levels=LV2) + scale(`a b`) + poly(`a b`, 2) + I(`a b` + x) + lag(ZZ[:len(x)], 2):lag(ZZ[1:len(x) + 1])"
+FORMULA = "scale(x) + A + B + A:B + poly(w, 2) + C(B, contr.sum):x + A:D:E + B:D:E:A + bs(w, knots=K, extrapolation='clip') + C(D, levels=LV) + I(x * SC[0]) + center(`a b`) + scale(`a b`) + lag(ZZ[:len(x)]) + center(`a b` * `a b`) + center(`a-b`)"
+UFORMULA = "center(x) + B + A + bs(w, df=3) + D:B:E + E:D:A:B + cr(x, knots=K, extrapolation='clip') + C(E, contr.treatment(base=LV2[1]), levels=LV2) + scale(`a b`) + scale(`a-b`) + poly(`a b`, 2) + I(`a b` + x) + lag(ZZ[:len(x)], 2):lag(ZZ[1:len(x) + 1])"
 
 
 def fp_frame(df) -> str:
